@@ -285,6 +285,8 @@ func runC11(p *P, r *R) {
 
 	// a close from any starting state closes the notify channel (shared with C10 R10.3)
 	borrow(p, r, "C10", runC10, map[string]string{"R10.3": "R11.3"}, func(o Ob) bool { return constructHas(o, "closes the notify channel") })
+	// a read blocked for more data is woken by every arrival (shared with C20 R20.1)
+	arrivalWakesReaders(p, r, "R11.10")
 	// the writer parked after EAGAIN is released by every EPOLLOUT edge (shared with C18 R18.7)
 	epollDemux(p, r, "R11.9")
 	c11ReadMore(p, r)
